@@ -1,10 +1,10 @@
 SPECIFICATION Spec
 CONSTANTS
   Kind = "ia"
-  Units = 5
-  Grain = 2
-  Heads = 2
-  UncoCand = {2}
+  Units = 8
+  Grain = 4
+  Heads = 1
+  UncoCand = {4}
   GrowSteps = {}
   InitUnco = FALSE
   UPP = 4
